@@ -372,3 +372,158 @@ impl SoundData for ParamProbeSoundData {
 		))
 	}
 }
+
+// ---- probes added for the C07/C08 suites ----
+
+// ---------------------------------------------------------------------------------------------
+// info probe effect, probe modulator, callback thread (C07/C08 system-level suites)
+// ---------------------------------------------------------------------------------------------
+
+/// What the `InfoProbe` effect saw in `Info` during the last `process` call.
+#[derive(Default)]
+pub struct InfoSeen {
+	pub clocks: Vec<kira::clock::ClockId>,
+	pub mods: Vec<kira::modulator::ModulatorId>,
+	/// `info.clock_info(id)` for every registered clock id: (ticking, ticks) or None
+	pub clock_info: Vec<Option<(bool, u64)>>,
+	/// `info.modulator_value(id)` for every registered modulator id
+	pub mod_value: Vec<Option<f64>>,
+	pub calls: usize,
+}
+pub type InfoShared = Arc<Mutex<InfoSeen>>;
+
+/// An effect that looks the registered ids up in `Info` on every `process` (passes audio through).
+pub struct InfoProbe(pub InfoShared);
+impl Effect for InfoProbe {
+	fn process(&mut self, _input: &mut [Frame], _dt: f64, info: &Info) {
+		let mut s = self.0.lock().unwrap();
+		s.calls += 1;
+		s.clock_info = s.clocks.iter().map(|id| info.clock_info(*id).map(|c| (c.ticking, c.time.ticks))).collect();
+		s.mod_value = s.mods.iter().map(|id| info.modulator_value(*id)).collect();
+	}
+}
+pub struct InfoProbeBuilder(pub InfoShared);
+impl EffectBuilder for InfoProbeBuilder {
+	type Handle = InfoShared;
+	fn build(self) -> (Box<dyn Effect>, InfoShared) {
+		let s = self.0.clone();
+		(Box::new(InfoProbe(self.0)), s)
+	}
+}
+
+/// A user-defined modulator: constant value, `finished()` when its flag is set, logs its drop thread.
+pub struct LifeProbeModulator {
+	pub value: f64,
+	pub finished: Arc<std::sync::atomic::AtomicBool>,
+	pub log: Log,
+}
+impl kira::modulator::Modulator for LifeProbeModulator {
+	fn on_start_processing(&mut self) {
+		self.log.lock().unwrap().on_start_processing += 1;
+	}
+	fn update(&mut self, dt: f64, _info: &Info) {
+		self.log.lock().unwrap().dts.push(dt);
+	}
+	fn value(&self) -> f64 {
+		self.value
+	}
+	fn finished(&self) -> bool {
+		self.finished.load(std::sync::atomic::Ordering::SeqCst)
+	}
+}
+impl Drop for LifeProbeModulator {
+	fn drop(&mut self) {
+		self.log.lock().unwrap().dropped_on = Some(std::thread::current().id());
+	}
+}
+pub struct LifeProbeModulatorHandle {
+	pub id: kira::modulator::ModulatorId,
+	pub finished: Arc<std::sync::atomic::AtomicBool>,
+	pub log: Log,
+}
+pub struct LifeProbeModulatorBuilder {
+	pub value: f64,
+}
+impl kira::modulator::ModulatorBuilder for LifeProbeModulatorBuilder {
+	type Handle = LifeProbeModulatorHandle;
+	fn build(self, id: kira::modulator::ModulatorId) -> (Box<dyn kira::modulator::Modulator>, LifeProbeModulatorHandle) {
+		let finished = Arc::new(std::sync::atomic::AtomicBool::new(false));
+		let log = new_log();
+		(
+			Box::new(LifeProbeModulator {
+				value: self.value,
+				finished: finished.clone(),
+				log: log.clone(),
+			}),
+			LifeProbeModulatorHandle { id, finished, log },
+		)
+	}
+}
+
+/// Runs the device callbacks on a dedicated thread (as a real backend does), so that "never on
+/// the audio thread" can be observed: the `Renderer` is moved to that thread and handed back —
+/// to be dropped by the caller — when the `CallbackThread` is stopped.
+pub struct CallbackThread {
+	tx: std::sync::mpsc::Sender<Option<(usize, u16)>>,
+	rx: std::sync::mpsc::Receiver<Result<Vec<f32>, String>>,
+	join: Option<std::thread::JoinHandle<Option<Renderer>>>,
+	pub thread_id: std::thread::ThreadId,
+}
+impl CallbackThread {
+	pub fn start(mut renderer: Renderer) -> Self {
+		let (tx, rx_cmd) = std::sync::mpsc::channel::<Option<(usize, u16)>>();
+		let (tx_res, rx) = std::sync::mpsc::channel();
+		let join = std::thread::Builder::new()
+			.name("probe-audio-callback".into())
+			.spawn(move || {
+				while let Ok(Some((frames, channels))) = rx_cmd.recv() {
+					let r = std::panic::catch_unwind(std::panic::AssertUnwindSafe(|| {
+						let mut out = vec![f32::from_bits(0x7fc0_1234); frames * channels as usize];
+						renderer.on_start_processing();
+						renderer.process(&mut out, channels);
+						out
+					}));
+					match r {
+						Ok(out) => {
+							let _ = tx_res.send(Ok(out));
+						}
+						Err(_) => {
+							let _ = tx_res.send(Err(crate::runner::last_panic()));
+							// the renderer is in an unknown state: leak it rather than drop it here
+							std::mem::forget(renderer);
+							return None;
+						}
+					}
+				}
+				Some(renderer)
+			})
+			.unwrap();
+		let thread_id = join.thread().id();
+		Self {
+			tx,
+			rx,
+			join: Some(join),
+			thread_id,
+		}
+	}
+	/// one callback (`on_start_processing` + `process`) on the callback thread
+	pub fn callback(&mut self, frames: usize, channels: u16) -> Vec<f32> {
+		self.tx.send(Some((frames, channels))).unwrap();
+		match self.rx.recv().unwrap() {
+			Ok(v) => v,
+			Err(m) => panic!("{}", m),
+		}
+	}
+	/// stops the thread and returns the renderer to the caller's thread
+	pub fn stop(&mut self) -> Option<Renderer> {
+		let _ = self.tx.send(None);
+		self.join.take().and_then(|j| j.join().ok().flatten())
+	}
+}
+impl Drop for CallbackThread {
+	fn drop(&mut self) {
+		let r = self.stop();
+		drop(r);
+	}
+}
+
